@@ -354,6 +354,8 @@ struct H {
     /// span uids in scope on this thread at the time (root -> leaf)
     scope: Vec<u64>,
     scope_sites: Vec<usize>,
+    /// the event named its parent (or root) explicitly
+    explicit: bool,
 }
 static HIST: Mutex<Vec<H>> = Mutex::new(Vec::new());
 static TURN: AtomicUsize = AtomicUsize::new(0);
@@ -385,7 +387,24 @@ fn thread_body(t: usize, d: Dispatch, mine: Vec<(usize, Value)>, sync: bool) {
         match op.as_str() {
             "event" => {
                 h.uid = uid;
-                sites::emit_event(site, uid);
+                match s["par"].as_str().unwrap_or("ctx") {
+                    // an explicit root: no span is in scope, whatever the thread is inside of
+                    "root" => {
+                        h.scope.clear();
+                        h.scope_sites.clear();
+                        h.explicit = true;
+                        sites::emit_event_root(site, uid);
+                    }
+                    // an explicit parent somewhere in the thread's stack: the scope is that span's ancestor chain
+                    "in" if !stack.is_empty() => {
+                        let idx = s["idx"].as_u64().unwrap_or(0) as usize % stack.len();
+                        h.scope.truncate(idx + 1);
+                        h.scope_sites.truncate(idx + 1);
+                        h.explicit = true;
+                        sites::emit_event_in(site, uid, &stack[idx].2);
+                    }
+                    _ => sites::emit_event(site, uid),
+                }
             }
             "push" => {
                 if stack.len() < 3 {
@@ -484,13 +503,18 @@ impl Engine for FmtEngine {
         decorate_sinks(&mut writer, &mut rng, sync);
         let nthreads = if sync { rng.range(1, 8) } else { rng.range(1, 3) };
         let aborts = g.mode == "probe:F8" || !finding_open("F8");
+        let explicit_ok = true;
         let mut steps = vec![];
         let per = rng.range(2, if g.tier == "thorough" { 12 } else { 8 });
         for t in 0..nthreads {
             for _ in 0..per {
                 let site = rng.below(20);
                 steps.push(match rng.below(100) {
-                    0..=54 => json!({"t": t, "op": "event", "site": site}),
+                    0..=54 => match rng.below(10) {
+                        0 | 1 if explicit_ok => json!({"t": t, "op": "event", "site": site, "par": "root"}),
+                        2 | 3 if explicit_ok => json!({"t": t, "op": "event", "site": site, "par": "in", "idx": rng.below(3)}),
+                        _ => json!({"t": t, "op": "event", "site": site}),
+                    },
                     55..=69 => json!({"t": t, "op": "push", "site": site}),
                     70..=82 => json!({"t": t, "op": "pop"}),
                     83..=90 => {
@@ -800,7 +824,9 @@ fn oracle(cfg: &Value, hist: &[H]) {
             }
             // JSON builds the `spans` list of a lifecycle record from the thread's current scope, not from the
             // record's explicit parent (documented narrowing: explicit-parent events are not judged there)
-            let skip_scope = json_mode && e.uid == 0;
+            // (before the repair of F26 the JSON `spans` list of a lifecycle record came from the thread's current
+            // scope instead of the span's own chain and was not judged; it is now)
+            let skip_scope = false;
             if !skip_scope && sp_vals != want_scope {
                 let class = if sp_vals.iter().all(|v| e.scope.contains(v)) && sp_vals.len() == want_scope.len() { "span-order" } else { "missing-span" };
                 violation(class, format!("op {}: spans in the record {:?} but the scope is {:?} (format {}): {:?}{tag}", e.gi, sp_vals, want_scope, format, clean));
